@@ -8,7 +8,8 @@ class C03(rowgen.RowGenProp):
     lean_module = "Wheatley.Props.C03"
     theorems = ["Wheatley.C03.permute_legal", "Wheatley.C03.permute_twice", "Wheatley.C03.gen_step_legal",
                 "Wheatley.C03.gen_rows_covers", "Wheatley.C03.named_places_made",
-                "Wheatley.C03.unnamed_places_swap"]
+                "Wheatley.C03.unnamed_places_swap",
+                "Wheatley.C03.covers_ring_behind_the_method", "Wheatley.C03.covers_are_the_opening_rows"]
     level_text = ("theorems: every (stage, place set, row) gives a change in which each bell stays or swaps with a "
                   "neighbour and places above the stage are untouched; lifted to every generator history. "
                   "correspondence: all (stage, place set) pairs to a stage bound, random generators with calls; "
